@@ -441,3 +441,13 @@ def run_case(case):
             "thr_distinct_delivery_outcomes": set(seen),
         },
     )
+
+
+def sanity(summary, tier):
+    x = summary["extra"]
+    probs = []
+    if x.get("bfs_states", 0) < 50:
+        probs.append("BFS reached only %s states" % x.get("bfs_states"))
+    if len(x.get("thr_distinct_delivery_outcomes", ())) < 5:
+        probs.append("thread schedules all deliver the same thing: the hand-over never overlapped a send")
+    return probs
